@@ -93,7 +93,7 @@ func Execute(b *[]byte, p unsafe.Pointer, s *vars.Stack, flags uint64, prog *ir.
 			x, f, p, q = s.Drop()
 		case ir.OP_recurse:
 			vt, pv := ins.Vp2()
-			f := flags
+			f := flags &^ (1 << alg.BitPointerValue)
 			if pv {
 				f |= (1 << alg.BitPointerValue)
 			}
